@@ -465,6 +465,14 @@ func runC07(c *Ctx) {
 	if w.streamRefl {
 		c.R.Probe("streaming reflected encoder with values it fails on")
 	}
+	// one run in six starts in the dark: every destination hangs on one dynamic
+	// level that enables nothing while the first loggers are derived, and is
+	// switched on just before the first entry is logged
+	dark := g.Chance(6)
+	darkLevel := zap.NewAtomicLevelAt(zapcore.InvalidLevel)
+	if dark {
+		c.R.Probe("derivations made while every level is off")
+	}
 	// ---- core stack ----
 	nLeaves := 1 + g.Weighted(4, 2, 1)
 	var cores []zapcore.Core
@@ -478,11 +486,15 @@ func runC07(c *Ctx) {
 		// not necessarily by a plain threshold: "low priority only" enablers
 		// (as in zap's own advanced-configuration example) reject error and up
 		var enab zapcore.LevelEnabler = zapcore.DebugLevel
-		switch g.Draw(4) {
-		case 1:
-			enab = zap.LevelEnablerFunc(func(l zapcore.Level) bool { return l < zapcore.ErrorLevel })
-		case 2:
-			enab = zap.NewAtomicLevelAt(zapcore.InfoLevel)
+		if dark {
+			enab = darkLevel
+		} else {
+			switch g.Draw(4) {
+			case 1:
+				enab = zap.LevelEnablerFunc(func(l zapcore.Level) bool { return l < zapcore.ErrorLevel })
+			case 2:
+				enab = zap.NewAtomicLevelAt(zapcore.InfoLevel)
+			}
 		}
 		switch lf.kind {
 		case 0, 1:
@@ -512,7 +524,11 @@ func runC07(c *Ctx) {
 				fl.WritePlan = append(fl.WritePlan, zsim.Outcome{})
 			}
 		}
-		cores = append(cores, zapcore.NewCore(newEncoder(false), zapcore.Lock(fl), zapcore.DebugLevel))
+		var flEnab zapcore.LevelEnabler = zapcore.DebugLevel
+		if dark {
+			flEnab = darkLevel
+		}
+		cores = append(cores, zapcore.NewCore(newEncoder(false), zapcore.Lock(fl), flEnab))
 		stackDesc = append(stackDesc, "flaky-json(not judged)")
 		c.Fault("flaky-destination")
 	}
@@ -801,6 +817,9 @@ func runC07(c *Ctx) {
 			}
 			w.nodes[op.newID] = n
 		case 1:
+			if dark {
+				darkLevel.SetLevel(zapcore.DebugLevel)
+			}
 			doLog(w.nodes[op.node], op)
 			// probe: an earlier node (usable by this task) must still give its own context
 			var cand []*c7node
